@@ -199,7 +199,13 @@ fn gen(rng: &mut rand::rngs::StdRng) -> Case {
             }
             let depth = rng.gen_range(1..=3);
             let f = core_expr(rng, depth, &pool);
-            cells.push((s, r, c, format!("={}", fgen::print(&f, &en))));
+            let text = format!("={}", fgen::print(&f, &en));
+            // x+(y+z) is re-printed as x+y+z when a sheet operation re-parses formulas (C09's
+            // pinned finding); with cancellation the value moves, so that shape is left to C09
+            if text.contains("+(") {
+                continue;
+            }
+            cells.push((s, r, c, text));
         }
     }
     let op = match rng.gen_range(0..3) {
